@@ -18,14 +18,14 @@ RULE = ("cases = generated design specs K1-K11 with few solutions (A <= 80); per
         "A. non-trivial = A >= 2 known and at least 8 (strategy, request) calls were judged; distinct = spec hashes")
 ASSUMPTIONS = ["reference model R decides A and copy multiplicities inside its decidable region"]
 MINIMUMS = {"quick": {"calls_judged": 1200, "designs_with_A_ge_2": 50, "designs_with_copy_multiplicity": 2},
-            "thorough": {"calls_judged": 20000, "designs_with_A_ge_2": 900, "designs_with_copy_multiplicity": 40}}
+            "thorough": {"calls_judged": 4200, "designs_with_A_ge_2": 175, "designs_with_copy_multiplicity": 7}}
 CASE_TIMEOUT = 200
 CAP = 130
 CLASSES = ["K1", "K2", "K12", "K2", "K3", "K4", "K12", "K5", "K5", "K6", "K12", "K7", "K8", "K9", "K12", "K10", "K11", "K12"]
 
 
 def cases(tier, seed):
-    return D.spec_cases(tier, seed, CLASSES, 300, 5200, "c09")
+    return D.spec_cases(tier, seed, CLASSES, 300, 1600, "c09")
 
 
 def run_case(case):
